@@ -1249,3 +1249,32 @@ fn rs_witness() {
 pub(crate) fn recv_mem(ch: &ReceiveChannelReliable) -> usize {
     ch.memory_usage_bytes
 }
+
+pub(crate) fn send_mem(ch: &SendChannelReliable) -> usize {
+    ch.memory_usage_bytes
+}
+pub(crate) fn set_send_mem(ch: &mut SendChannelReliable, mem: usize, next_id: u64) {
+    ch.memory_usage_bytes = mem;
+    ch.next_reliable_message_id = next_id;
+}
+pub(crate) fn put_small(ch: &mut SendChannelReliable, slot: usize, id: u64, len: usize, blob: u32, last_sent: Option<Duration>) {
+    ch.unacked_messages.slots[slot] = Some((id, UnackedMessage::Small { message: vbytes(len, blob), last_sent }));
+    ch.unacked_messages.len = slot + 1;
+}
+pub(crate) fn put_sliced2(ch: &mut SendChannelReliable, id: u64, len: usize, acked0: bool, now: Duration) {
+    ch.unacked_messages.slots[0] = Some((
+        id,
+        UnackedMessage::Sliced {
+            message: vbytes(len, 100),
+            num_slices: 2,
+            num_acked_slices: if acked0 { 1 } else { 0 },
+            next_slice_to_send: 0,
+            acked: vec![acked0, false],
+            last_sent: vec![Some(now), Some(now)],
+        },
+    ));
+    ch.unacked_messages.len = 1;
+}
+pub(crate) fn has_msg(ch: &SendChannelReliable, id: u64) -> bool {
+    ch.unacked_messages.contains_key(&id)
+}
